@@ -884,8 +884,8 @@ def run(ctx):
             if isinstance(s, ast.While):
                 info = analyse_while(s)
                 ctx.ob("C11.progress", m, "while " + short(s.test), not info["stuck_paths"], "module-level loop without progress", line=s.lineno)
-    _iter_rule(ctx)
-    _rec_rule(ctx)
+    ctx.section(_iter_rule, ctx)
+    ctx.section(_rec_rule, ctx)
     ctx.samples = samples[:8]
 
 
